@@ -56,6 +56,21 @@ CHECKS = {
             "node at its inbound limit must reject the pending connection.",
             "Same trusted base as C05.",
             "DESIGN.md §3 C06"),
+    "C08": ("exploration",
+            "per-protocol per-peer event grammar + substream-id ledger over real TransportManager/ProtocolSet/TransportService with scripted connections (virtual-time bulk + real-time keep-alive family)",
+            "Random histories of overlapping connections (up to two + attempted third) for several peers, open_substream from 1-4 protocols, connection answers "
+            "(opened/failed/never), inbound substreams, force-close and keep-alive downgrades; every protocol's TransportService stream must match "
+            "(Established (SubstreamOpened|SubstreamOpenFailure)* Closed)* per peer, ids are never reused across protocols, every answered request yields exactly "
+            "one correctly routed event, requests are accepted while connected, and the manager never reports the peer closed before a protocol saw the close.",
+            "Scripted connections mirror TcpConnection::start() (trusted base).",
+            "DESIGN.md §3 C08"),
+    "C09": ("exploration",
+            "close-instant window monitor on scripted connections in real time with 20/60 ms keep-alive timeouts (layer a; TransportService timers read std::time::Instant, so virtual time cannot be used)",
+            "The scripted connection records the instant at which every protocol released it; oracle: never earlier than (last keep-alive activity, timestamped "
+            "before the call) + timeout, never while a keep-alive substream is held or an open is in flight, not later than 500 ms after it is due while idle, "
+            "traffic of non-keep-alive protocols every T/2 for > T + 1 s must not prolong it, and after the last activity every connection is released within 3 timeouts + 1 s.",
+            "Lifetime-permit placement of real TcpConnection (tcp/connection.rs) is mirrored, not exercised, by this layer; it is exercised by the real-node layer.",
+            "DESIGN.md §3 C09"),
     "C10": ("exploration",
             "address-book snapshot invariants (hook accessor) + open() argument check on the real TransportManager (same scripted harness as C05)",
             "After every action the stored (address, score) list of each peer is compared with the snapshot before: bound 64, attribution to the peer, newly "
